@@ -522,3 +522,139 @@ def sniff_cases(rng):
             for e in (rng.sample(exts, 4) + ["dat", "bin"]):
                 out.append((e, body))
     return out
+
+
+# ---------------------------------------------------------------------------
+# command layer: argument strings for get_num / get_address / get_range / write* / print*
+# ---------------------------------------------------------------------------
+
+NUM_ATOMS = ["0", "1", "9", "10", "255", "256", "65535", "65536", "4294967295", "4294967296", "4294967297", "2147483648",
+             "99999999999999999999", "0x0", "0x1", "0xff", "0xFF", "0xffff", "0x10000", "0xffffffff", "0x100000000",
+             "0xfffffffe", "0xfffffffc", "0xffff0000", "0x7fffffff", "0x80000000", "0x123456789abcdef", "0x", "0xg", "0x1g",
+             "10h", "ffh", "FFh", "h", "-h", "1-h", "-10h", "0h", "ffffffffh", "100000000h", "ah", "gh", "1h2",
+             "-1", "-0", "-", "--", "-5", "-4294967295", "-2147483648", "- 5", "+5", "1e3", "12a", "a12", "zz", "main", "tab",
+             "0x-1", "0x1-2", "1-2", "1 - 2", "1-", "-1-", "1--2", "5x", "0X10", "010", "1_000", "1,2", "1.5", "'a'", "\t1", "1\t"]
+SEPS = [" ", " ", " ", "  ", "   ", "", "-", " - ", "\t"]
+
+
+def num_string(rng, n=None):
+    n = n if n is not None else rng.choice([0, 1, 1, 2, 2, 3, 5, 9])
+    s = rng.choice(["", "", "", " ", "   "])
+    for i in range(n):
+        if i:
+            s += rng.choice(SEPS)
+        s += rng.choice(NUM_ATOMS)
+    s += rng.choice(["", "", "", " ", "  ", "h", " h", "-"])
+    return s
+
+
+def rand_string(rng):
+    alphabet = "0123456789abcdefxXhH- -  ghz\t+,._'\"=@:;/\\()"
+    return "".join(rng.choice(alphabet) for _ in range(rng.choice([0, 1, 2, 3, 5, 8, 13, 30, 300])))
+
+
+def range_string(rng):
+    a = rng.choice(NUM_ATOMS + ["main", "tab", ""])
+    b = rng.choice(NUM_ATOMS + ["main", "tab", ""])
+    form = rng.choice(["%s-%s", "%s - %s", "%s-", "-%s", "%s", "%s %s", "%s-%s x", " %s-%s ", "%s--%s", "-", "", "%s -%s"])
+    try:
+        return form % (a, b)
+    except TypeError:
+        try:
+            return form % a
+        except TypeError:
+            return form
+
+
+def print_range(rng):
+    """ranges for print*: syntactically anything, but never more than a few hundred addresses wide"""
+    a = rng.choice([0, 1, 2, 3, 0x10, 0xff, 0x100, 0xfffe, 0xffff, 0x10000, 0x7ffffff0, 0x80000000, 0xffffff00, 0xfffffff0,
+                    0xfffffffc, 0xfffffffd, 0xfffffffe, 0xffffffff])
+    span = rng.choice([0, 1, 2, 3, 4, 5, 15, 16, 17, 31, 32, 33, 127, 128, 129, 300])
+    b = min(a + span, 0xffffffff)
+    fa = rng.choice(["0x%x", "%d", "%xh", "0x%X"]) % a
+    fb = rng.choice(["0x%x", "%d", "%xh"]) % b
+    form = rng.choice(["%s-%s", "%s-%s", "%s - %s", " %s-%s ", "%s -%s", "%s- %s"])
+    r = form % (fa, fb)
+    k = rng.randrange(12)
+    if k == 0:
+        return fa
+    if k == 1:
+        return r + " x"
+    if k == 2 and b < 0x10000:       # end before start (small values only: a scaled address must not wrap into a 4 GB range)
+        return form % (fb, fa)
+    if k == 3:
+        return rng.choice(["", "-", "--", "zz", "1-zz", "zz-1", "- -", "main", "10-main", "-%s" % (fb if b < 0x1000 else "0x20"), "%s-" % fa])
+    return r
+
+
+WRAP_RANGES = ["0xfffffffe-0xffffffff", "0xfffffffc-0xffffffff", "0xfffffffd-0xffffffff", "0xffffff80", "0xffffff81",
+               "0xfffffff0-0xffffffff", "0xffffffff", "0xffffffff-0xffffffff", "0xffffffff-0", "0x10-0x8", "0-0", "0-1", "0-2",
+               "0-15", "0-16", "0-17", "0-33", "1-2", "1-18", "3-4", "0x7fffffff-0x80000010", "0xfffffffb-0xffffffff",
+               "0xfffffff8-0xfffffffe", "0xfffffffe", "0xfffffffc", "-0x10", "0xffffff00-"]
+
+CMD_CPUS = ["msp430", "avr8", "68000", "arm", "tms340", "6502", "pic14", "dspic", "mips", "8051", "riscv", "1802"]
+SYMS = "6d61696e=1234,746162=ffffff00,2d=5,3130=77,68=9,6d61696e2035=42"      # main, tab, "-", "10", "h", "main 5"
+
+
+def hx(s):
+    b = s.encode("latin-1") if isinstance(s, str) else s
+    return b.hex() if b else "-"
+
+
+def cmd_lines(rng, n):
+    """protocol lines for snum / saddr / srange / swrite / sprint / svalid"""
+    out = []
+    for a in NUM_ATOMS:
+        out.append("snum " + hx(a))
+        out.append("snum " + hx(" " + a + " 7"))
+        out.append("saddr avr8 %s %s" % (SYMS, hx(a)))
+        out.append("srange msp430 %s ffff %s" % (SYMS, hx(a + "-" + a)))
+        for w in ("8", "16", "32"):
+            out.append("swrite %s msp430 - %s" % (w, hx("0x100 " + a + " 5")))
+            out.append("swrite %s 68000 %s %s" % (w, SYMS, hx(a + " 1 2")))
+    for r in WRAP_RANGES:
+        for w in ("8", "16", "32"):
+            for cpu in ("msp430", "avr8", "arm", "6502"):
+                out.append("sprint %s %s - %s %s" % (w, cpu, rng.choice(["ffff", "ffffffff", "0"]), hx(r)))
+    for i in range(n):
+        k = rng.randrange(8)
+        cpu = rng.choice(CMD_CPUS)
+        syms = rng.choice(["-", SYMS])
+        if k == 0:
+            out.append("snum " + hx(rng.choice([num_string(rng), rand_string(rng)])))
+        elif k == 1:
+            out.append("saddr %s %s %s" % (cpu, syms, hx(rng.choice([num_string(rng), rand_string(rng)]))))
+        elif k == 2:
+            out.append("srange %s %s %x %s" % (cpu, syms, rng.choice([0, 0xffff, 0xffffffff, 0x1234]),
+                                             hx(rng.choice([range_string(rng), range_string(rng), rand_string(rng)]))))
+        elif k in (3, 4):
+            addr = rng.choice(["0x100", "0", "0xffffffff", "0xfffffffe", "0xfffc", "1", "3", "main", "tab", "zz", "", "0x7ffffffe"])
+            out.append("swrite %s %s %s %s" % (rng.choice(["8", "16", "32"]), cpu, syms,
+                                               hx(addr + rng.choice([" ", "  ", ""]) + rng.choice([num_string(rng), rand_string(rng)]))))
+        elif k in (5, 6):
+            r = rng.choice([print_range(rng), print_range(rng), rng.choice(WRAP_RANGES)])
+            out.append("sprint %s %s %s %x %s" % (rng.choice(["8", "16", "32"]), cpu, syms, rng.choice([0, 0xffff, 0x20]), hx(r)))
+        else:
+            names = ["asm", "break", "call", "clear", "disasm", "display", "dumpram", "dump_ram", "exit", "help", "info", "no_clear",
+                     "print", "print16", "print32", "push", "quit", "registers", "reg", "reset", "run", "set", "speed", "step", "stop",
+                     "symbols", "write", "write16", "write32", "", "?", "Print", "prin", "print8", "quit ", "x" * 300]
+            out.append("svalid %s %s" % (hx(rng.choice(names)), hx(rng.choice(["", "", "1", "x y", " "]))))
+    return out
+
+
+def walk_lines(rng, n):
+    """swalk: images in a few pages, ranges incl. the top of the address space"""
+    out = []
+    pages = [0, 0x10000, 0x20000, 0x7fff0000, 0x80000000, 0xfffe0000, 0xffff0000]
+    for i in range(n):
+        cells = []
+        for p in rng.sample(pages, rng.choice([0, 1, 1, 2, 3])):
+            off = rng.choice([0, 1, 0x100, 0xfffe, 0xffff, 0x8000])
+            ln = rng.choice([1, 2, 4])
+            cells.append("%x:%s" % ((p + off) & 0xffffffff, "ab" * ln))
+        cpu = rng.choice(["msp430", "msp430", "avr8", "6502", "tms340", "arm"])
+        start = rng.choice(pages + [0x100, 0xffff, 0xffffffff, 0xffff0010])
+        end = rng.choice(pages + [0xffff, 0x1ffff, 0xffffffff, 0xfffffffe, 0xffff0000, 0xfffeffff, 0x80000001])
+        out.append("swalk %s %s %x %x" % (cpu, ";".join(cells) or "-", start, end))
+    return out
